@@ -27,6 +27,63 @@ def register_roles(ctor):
     return roles
 
 
+def shift_register_form(rep, c, env, inp):
+    """Alternative verified shape of the synchroniser: one input_stages-bit register per pin, shifted by one place per
+    clock from pin.i, read at its last bit; bypassed when input_stages == 0."""
+    site = c.fi.site
+    stages = c.parse("self.input_stages")
+    conds = {c.norm(ir.parse(t)) for t in ("self.input_stages > 0", "self.input_stages != 0", "self.input_stages", "self.input_stages >= 1")}
+    cands = [s for s in c.t.sigs.values() if s.ctor[0] == 'call' and s.ctor[2] and c.norm(s.ctor[2][0]) == stages]
+    if len(cands) != 1:
+        rep.unk("C16.1", site, "synchroniser chain", "neither a loop-carried chain starting at pin.i nor one input_stages-bit shift register per pin was found")
+        return
+    s = cands[0]
+    S = ('sig', s.id, s.name)
+    guard = [fr for fr in s.gen if fr[0] == 'pyif']
+    if len(guard) != 1 or c.norm(guard[0][1]) not in conds or guard[0][2] is not True or not any(fr[0] == 'for' for fr in s.gen):
+        rep.unk("C16.1", site, "shift register exists exactly when input_stages > 0, once per pin",
+                f"created under {[ir.show(c.norm(fr[1])) if fr[0] == 'pyif' else fr for fr in s.gen]}")
+        return
+    cond = c.norm(guard[0][1])
+    e2 = dict(env, S=S)
+    sd = c.drivers_of(S)
+    if len(sd) != 1 or sd[0].domain != "sync" or sd[0].dsl or sd[0].gen != s.gen:
+        rep.bad("C16.1", site, "shift register update", "the register must have exactly one unconditional sync driver (one place per clock)",
+                lines=[x.lineno for x in sd])
+        return
+    v = c.norm(sd[0].value)
+    good = {c.parse("Cat(pin.i, S[:-1])", e2), c.parse("Cat(pin.i, S[:self.input_stages - 1])", e2)}
+    if v in good:
+        rep.ok("C16.1", site, "shift register: bit 0 takes pin.i, bit k takes bit k-1", ir.show(v))
+    else:
+        wrong = None
+        if v[0] == 'call' and v[1] == ('name', 'Cat') and len(v[2]) == 2:
+            if v[2][0] != c.parse("pin.i", env):
+                wrong = f"the register is fed from {ir.show(v[2][0])}, not from the pin input"
+            elif v[2][1][0] == 'sub' and v[2][1][1] == S and v[2][1][2][0] == 'slice':
+                wrong = (f"only {ir.show(v[2][1])} is shifted up: bits beyond that never receive the pin level, so the last bit does "
+                         "not follow the pin for deeper chains")
+        rep.form(False, "C16.1", site, "shift register: bit 0 takes pin.i, bit k takes bit k-1", f"update is {ir.show(v)}", wrong=wrong)
+        return
+    if len(inp) != 1 or inp[0].domain != "comb" or inp[0].dsl:
+        rep.bad("C16.1", site, "Input field r_data", "must have one unconditional combinational driver (no extra delay)")
+        return
+    rv = c.norm(inp[0].value)
+    want = c.norm(('phi', cond, c.parse("S[-1]", e2), c.parse("pin.i", env)))
+    alt = c.norm(('phi', cond, c.parse("S[self.input_stages - 1]", e2), c.parse("pin.i", env)))
+    if rv in (want, alt):
+        rep.ok("C16.1", site, "Input r_data == last bit of the shift register (pin.i when input_stages == 0)", ir.show(rv)[:120])
+        rep.ok("C16.1", site, "chain length == input_stages", f"register width {ir.show(stages)}", nontrivial=True)
+        rep.ok("C16.1", site, "one register per pin", "created inside the pin loop", nontrivial=True)
+    else:
+        wrong = None
+        taps = [x for x in ir.walk(rv) if x[0] == 'sub' and x[1] == S and x[2][0] == 'const']
+        if taps and all(x[2] != ('const', -1) for x in taps):
+            wrong = f"the register is read at {ir.show(taps[0])}: the delay is not input_stages cycles"
+        rep.form(False, "C16.1", site, "Input r_data == last bit of the shift register (pin.i when input_stages == 0)",
+                 f"value is {ir.show(rv)[:120]}", wrong=wrong)
+
+
 def run(rep, idx, tier):
     rep.explanation = EXPLANATION
     rep.assume("A2", "A3", "A4")
@@ -74,8 +131,7 @@ def run(rep, idx, tier):
     if not inp:
         rep.bad("C16.1", site, "Input field r_data", "the Input register field of the pin is never driven")
     elif len(folds) == 0:
-        # no chain: r_data must be pin.i directly and input_stages must not exist as a loop
-        rep.unk("C16.1", site, "synchroniser chain", "no loop-carried variable starting at pin.i was found")
+        shift_register_form(rep, c, env, inp)
     else:
         f = folds[0]
         loop = c.t.loops[f.loop]
